@@ -6,7 +6,9 @@
 #include "Stream/BidirectionalReader.h"
 #include "Stream/BidirectionalWriter.h"
 #include <cstring>
+#include <functional>
 #include <stdexcept>
+#include <string>
 #include <vector>
 
 namespace sim {
@@ -20,6 +22,13 @@ public:
 	uint64_t calls = 0, highWater = 0;
 	std::vector<Rec> trace;
 	bool keepTrace = true;
+	// Interleaving point (the only one a single-threaded library has): at the end of the k-th data-delivering call, before control
+	// returns into the library, the scheduler may run another task - typically a second library call on other objects. Whatever that
+	// task throws is kept for the harness; nothing propagates into the interrupted call.
+	std::function<void()> interleave;
+	uint64_t interleaveAtCall = UINT64_MAX, dataCalls = 0;
+	bool interleaved = false, inInterleave = false;
+	std::string interleaveError;
 
 	explicit SimReader(std::vector<uint8_t> bytes) : data(std::move(bytes)) {}
 
@@ -29,6 +38,7 @@ public:
 		if (n) memcpy(buffer, data.data() + pos, n);
 		note('p', size, pos, pos + n);
 		pos += n;
+		maybeInterleave();
 		return n;
 	}
 	uint64_t Length() override { return data.size(); }
@@ -56,9 +66,17 @@ protected:
 		if (size) memcpy(buffer, data.data() + pos, size);
 		note('r', size, pos, pos + size);
 		pos += size;
+		maybeInterleave();
 	}
 
 private:
+	void maybeInterleave() noexcept {
+		if (inInterleave || !interleave || ++dataCalls != interleaveAtCall) return;
+		inInterleave = true;
+		try { interleave(); } catch (const std::exception& e) { interleaveError = e.what(); } catch (...) { interleaveError = "non-std exception"; }
+		inInterleave = false;
+		interleaved = true;
+	}
 	void note(char op, uint64_t size, uint64_t before, uint64_t after) {
 		if (after > highWater) highWater = after;
 		if (keepTrace && trace.size() < 100000) trace.push_back(Rec{op, size, before, after});
@@ -71,6 +89,11 @@ public:
 	std::vector<uint8_t> data;
 	uint64_t capacity = UINT64_MAX; // a write that would exceed it is refused
 	std::vector<Rec> trace;
+	// Interleaving point: at the START of the k-th write call, before the bytes handed over are looked at (see SimReader).
+	std::function<void()> interleave;
+	uint64_t interleaveAtCall = UINT64_MAX, dataCalls = 0;
+	bool interleaved = false, inInterleave = false;
+	std::string interleaveError;
 
 	uint64_t Length() override { return data.size(); }
 	uint64_t Position() override { return data.size(); }
@@ -80,6 +103,12 @@ public:
 
 protected:
 	void WriteImplementation(const void* buffer, std::size_t size) override {
+		if (!inInterleave && interleave && ++dataCalls == interleaveAtCall) {
+			inInterleave = true;
+			try { interleave(); } catch (const std::exception& e) { interleaveError = e.what(); } catch (...) { interleaveError = "non-std exception"; }
+			inInterleave = false;
+			interleaved = true;
+		}
 		if (size > capacity - data.size()) throw std::runtime_error("SimWriter: device full after " + std::to_string(data.size()) + " bytes");
 		if (trace.size() < 100000) trace.push_back(Rec{'w', size, data.size()});
 		const uint8_t* p = static_cast<const uint8_t*>(buffer);
